@@ -80,6 +80,18 @@ def generate(rng):
         scn.pop('tear', None)
         scn.pop('twin', None)
         scn['sws'] = None
+    if rng.random() < 0.015:
+        scn = {'family': 'async', 'profile': 'engine', 'transport': rng.choice(['fd', 'pty']), 'enc': 'utf-8', 'errors': 'strict',
+               'costs': engine.gen_costs(rng), 'maxread': 2000, 'sws': None, 'timeout': 0.02, 'use_poll': False, 'bad_byte': True,
+               'peer': [{'op': 'w', 'd': 'ab', 'dt': 5}, {'op': 'w', 'd': rng.choice(['\xff', 'z\xffc', '\xffc']), 'dt': rng.choice([50, 3000])},
+                        {'op': 'w', 'd': 'c', 'dt': 400}, {'op': 'pause'}],
+               'ops': [{'op': 'expect', 'api': rng.choice(['expect', 'expect_exact']), 'pats': [{'t': 'ex', 'p': 'c'}],
+                        'to': rng.choice([0.02, 0.5, None]), 'sws': -1, 'async': True}], 'step_cap': 60000, 'vt_cap_s': 1000}
+        if scn['ops'][0]['api'] == 'expect':
+            scn['ops'][0]['pats'] = [{'t': 're', 'p': 'c'}]
+        if scn['transport'] == 'pty':
+            scn['eof_flavour'] = 'eio'
+        return scn
     ops = scn['ops']
     aw_ = [i for i, o in enumerate(ops) if o['op'] == 'expect' and o.get('async')]
     if len(aw_) >= 2 and rng.random() < 0.05:
@@ -296,6 +308,24 @@ def run(scn, clauses=None):
                     lp_.close()
                 except Exception:
                     pass
+        if scn.get('bad_byte'):
+            # bytes that are not text in the object's encoding (strict error policy): the blocking call raises
+            # UnicodeDecodeError to its caller; the awaited call must do the same, not sit out its timeout (or hang)
+            if scn.get('enc') != 'utf-8' or scn.get('errors', 'strict') != 'strict' or len(scn['ops']) != 1:
+                raise HarnessError('bad_byte: one awaited call on a strict utf-8 object')
+            rec_ = r.ops[-1] if r.ops else None
+            out = []
+            ok_ = rec_ is not None and rec_.get('out') == 'EXC' and isinstance(rec_.get('exc'), UnicodeDecodeError)
+            if not ok_ and any(b'\xff' in harness.b(st.get('d', '')) for st in scn.get('peer', []) if st.get('op', 'w') == 'w'):
+                what_ = 'blocked the loop for ever' if state['stop'] is not None else 'ended in %s' % (rec_.get('out') if rec_ else None)
+                out.append(Violation('C14.decode_error', 'the child wrote bytes that are not UTF-8 (strict): the blocking call raises '
+                                     'UnicodeDecodeError, the awaited call %s' % what_, None, {'call': {'api': 'decode'}}))
+            r.w.probe('undecodable_bytes_during_an_awaited_call')
+            info = engine.collect_info(r)
+            info['counters'] = {'async_calls': 1, 'sync_calls': 0, 'idle_chunks': 0}
+            info['nchunks'] = max(1, info.get('nchunks', 0))
+            info['probes'] = dict(r.w.probes)
+            return out, info
         vs = engine.evaluate(r, clauses)
         out = []
         for v in vs:
